@@ -296,7 +296,9 @@ def dynamic_stage(ctx, seed, scale=1.0, tag='gen'):
         family, profile, count_q, count_t, size = g
         # thorough tier: the configured count times VERIF_THOROUGH_SCALE (default 3; per-property override `thorough_scale`)
         tscale = float(os.environ.get('VERIF_THOROUGH_SCALE', ctx.cfg.get('thorough_scale', 3)))
-        count = int((count_q if ctx.tier == 'quick' else count_t * tscale) * scale)
+        # quick tier: the configured count times VERIF_QUICK_SCALE (default 2; per-property override `quick_scale`)
+        qscale = float(os.environ.get('VERIF_QUICK_SCALE', ctx.cfg.get('quick_scale', 2)))
+        count = int((count_q * qscale if ctx.tier == 'quick' else count_t * tscale) * scale)
         path = os.path.join(ctx.work, f'{tag}{gi}.req')
         rc, out = sh([HBIN, 'gen', family, profile, str(seed + gi), str(count), str(size), path], timeout=1800)
         if rc != 0:
